@@ -52,7 +52,7 @@ structure DState where
   search : NeoFS.Driver.SearchState := {}
   mig : NeoFS.Driver.MigrateState := {}
   resync : NeoFS.Driver.Resync.State := {}
-  irn : NeoFS.IRNetmap.St := ⟨0, false, 0⟩
+  irn : NeoFS.IRNetmap.HSt := {}
   irx : NeoFS.IRIndexer.St := {}
 
 def stepLine (s : DState) (line : String) : DState × String :=
